@@ -10,8 +10,8 @@ def main():
     a = ap.parse_args()
     from vf import runner
     pid = a.pid.upper()
-    if a.replay: return runner.do_replay(pid, a.replay, a.quiet)
-    if a.conformance: return runner.do_conformance(pid, a.conformance)
+    if a.replay: return runner.do_replay(pid, a.replay, a.quiet, a.tier)
+    if a.conformance: return runner.do_conformance(pid, a.conformance, a.tier)
     if a.list:
         for o in runner.load_prop(pid).obligations(a.tier): print(o.id, '|', o.engine, '|', o.budget_s, '|', o.desc)
         return 0
